@@ -10,7 +10,7 @@ from ..cfg import CFG
 from ..setbuild import describe as describe_set
 from ..dataflow import reaching_defs, resolved_text
 from ..report import Finding, Report
-from ..srcindex import AnalysisError, FuncInfo, Index
+from ..srcindex import AnalysisError, FuncInfo, Index, raw_funcs
 
 PR = "xdsl/pattern_rewriter.py"
 BUILDER = "xdsl/builder.py"
@@ -42,6 +42,29 @@ def _flag_nodes(f: FuncInfo, cfg: CFG) -> set[int]:
     return {cfg.node_of(n) for n in walk_local(f.node) if isinstance(n, ast.Assign) and unparse(n.targets[0]) == FLAG and isinstance(n.value, ast.Constant) and n.value.value is True}
 
 
+def check_insertion_owner(idx: Index, rep: Report) -> None:
+    """`Builder.insert` is the virtual entry point of an insertion: Builder.insert_op links the operation and notifies the
+    listener, and PatternRewriter.insert adds the 'the pattern did something' flag on top.  Code that holds a builder and
+    performs the two steps by hand (Rewriter.insert_op + handle_operation_insertion) bypasses whatever the builder's
+    class adds -- for a PatternRewriter the flag, so the driver stops before the fixpoint although the IR changed."""
+    r = rep.rule("C11.R7", "the insertion notification is sent only by Builder.insert_op: nobody else pairs Rewriter.insert_op with handle_operation_insertion by hand (a PatternRewriter's insert also records the action)", floor=1)
+    n = 0
+    for rel in ("xdsl/builder.py", "xdsl/pattern_rewriter.py", "xdsl/rewriter.py"):
+        for f in raw_funcs(idx.module(rel)):
+            for c in calls_in(f.node):
+                if call_attr(c) != "handle_operation_insertion":
+                    continue
+                n += 1
+                inst = f"{f.fq}:{c.lineno - f.node.lineno}"
+                owner_ok = f.cls is not None and f.cls.name in ("Builder", "BuilderListener", "PatternRewriter", "PatternRewriterListener") and isinstance(c.func, ast.Attribute) and unparse(c.func.value) in ("self", "super()")
+                if owner_ok:
+                    r.ok(inst, f"{f.loc} notification sent by the builder's own insert_op")
+                else:
+                    r.fail(inst, Finding("C11.R7", f.fq, "insertion-notified-by-hand", f"`{unparse(c)}` notifies the listener of an insertion outside Builder.insert_op: the insertion itself was done without `{unparse(c.func.value) if isinstance(c.func, ast.Attribute) else 'builder'}.insert(...)`, so a PatternRewriter acting as the implicit builder never sets has_done_action for it: rewrite_module reports 'nothing changed' and no further sweep runs although operations were created", f"{rel}:{c.lineno}"))
+    if n == 0:
+        raise AnalysisError("no handle_operation_insertion call found in builder.py / pattern_rewriter.py (Builder.insert_op expected)")
+
+
 def check(idx: Index, rep: Report, tier: str) -> str:
     pr_cls = idx.cls(PR, "PatternRewriter")
     mro = idx.mro(pr_cls)
@@ -69,6 +92,7 @@ def check(idx: Index, rep: Report, tier: str) -> str:
             return None
         return visible.get(tag)
 
+    rep.run(check_insertion_owner, idx, rep)
     # ---- R1: action flag
     r1 = rep.rule("C11.R1", "every PatternRewriter method that reaches an IR-mutating primitive sets has_done_action on every path on which the primitive is reached", floor=10)
     memo: dict[str, bool] = {}
